@@ -231,9 +231,18 @@ def run_witnesses(report, prop):
 def replay(prop, path):
     with open(path) as f:
         rep = json.load(f)["case"]
+    if rep["mode"] not in ("abs", "text"):
+        # two observations (pair, range) or a generated text (scale): only the check itself rebuilds them
+        from ..common import replay_by_rerun
+        return replay_by_rerun(prop, path)
     report = Report(prop, "quick")
     obs = parsepipe.parse_texts(["\n".join(rep["lines"]) + "\n"], f"{prop}r")
     c = parsepipe.case(rep["mode"], rep["lines"], rep.get("listing") or [], obs[0])
     v = parsepipe.validate([c], report, f"{prop}r")[0]
-    print("replay verdict:", v, obs[0])
-    return 1 if v.startswith("rej") else 0
+    print("replay verdict:", v, str(obs[0])[:1500])
+    if v.startswith("rej"):
+        return 1
+    # the case may have been observed under a variation (DEBUG level, a range rule, a rule compiled in between, a
+    # repeated block): run the check again and look for the same case
+    from ..common import replay_by_rerun
+    return replay_by_rerun(prop, path)
